@@ -273,8 +273,9 @@ func (t *topologyPlugin) getJobAllocatableDomains(
 
 	// Validate that the domains do not clash with the chosen domain for active pods of the job
 	var relevantDomainsByLevel domainsByLevel
-	if hasActiveAllocatedTasks(podSets) && hasTopologyRequiredConstraint(subGroup) {
-		relevantDomainsByLevel = getRelevantDomainsWithAllocatedPods(podSets, topologyTree,
+	activePodSets := t.sessionPodSets(job, podSets)
+	if hasActiveAllocatedTasks(activePodSets) && hasTopologyRequiredConstraint(subGroup) {
+		relevantDomainsByLevel = getRelevantDomainsWithAllocatedPods(activePodSets, topologyTree,
 			DomainLevel(subGroup.GetTopologyConstraint().RequiredLevel))
 	} else {
 		relevantDomainsByLevel = topologyTree.DomainsByLevel
@@ -307,6 +308,30 @@ func (t *topologyPlugin) getJobAllocatableDomains(
 	}
 
 	return domains, nil
+}
+
+// sessionPodSets returns the pod sets as the session knows them. The solvers of reclaim, preempt and
+// consolidation pass a partial clone of the job that holds only the tasks still to be allocated; the
+// job's active pods, which pin the topology domain, are only known to the session's own job.
+func (t *topologyPlugin) sessionPodSets(
+	job *podgroup_info.PodGroupInfo, podSets map[string]*subgroup_info.PodSet,
+) map[string]*subgroup_info.PodSet {
+	if t.session == nil || t.session.ClusterInfo == nil {
+		return podSets
+	}
+	sessionJob, found := t.session.ClusterInfo.PodGroupInfos[job.UID]
+	if !found {
+		return podSets
+	}
+	result := make(map[string]*subgroup_info.PodSet, len(podSets))
+	for name, podSet := range podSets {
+		if sessionPodSet, found := sessionJob.PodSets[name]; found {
+			result[name] = sessionPodSet
+		} else {
+			result[name] = podSet
+		}
+	}
+	return result
 }
 
 func hasActiveAllocatedTasks(podSets map[string]*subgroup_info.PodSet) bool {
